@@ -168,6 +168,29 @@ CHECKS = {
              "preconditions are violated at once.",
         technique="TLA+ configuration model checked by TLC and used as the job generator; differential records judged by TLC against each other and against the TLA+ data layer (trace validation)",
     ),
+    "C18": dict(
+        category="model_checking",
+        text="obj/Sampler models the samplers as byte-level step machines over an entropy tape (read k bytes, mask, compare, accept or retry) in the three shapes the code has (Integer.random, "
+             "getrandbits, getRandomInteger) plus randrange/randint/choice/shuffle/sample; TLC explores every draw of an attempt (base 256 for attempts of <= 2 bytes, base 16 beyond) for every range "
+             "bound 0..40 and bit size 0..12 and checks range, uniformity by counting per attempt (equal pre-image counts, no dead range), memorylessness after a rejected attempt and that the bytes "
+             "consumed are a function of the path; shuffle/sample have equal fibres over all tapes for n <= 4; a modulo-reduction sampler and the naive shuffle are shown to violate it. TLC-generated tapes "
+             "(exhaustive first bytes, boundary tapes for cryptographic sizes) are fed to the real functions through randfunc= (and a replaced Crypto.Random.new for internal consumers) on three back-ends; "
+             "TLC requires value and bytes drawn to equal the model's; ECC/DSA/RSA consumers (private scalars, nonces, blinding factors, seeds) must be deterministic functions of the tape within their consumer's bounds.",
+        design_ref="DESIGN.md section 6, C18",
+        note="Trusted: TLC. getPrime and RSA.generate are judged on size, parity and determinism only (the prime search is not modelled).",
+        technique="TLA+ step-machine model of the rejection samplers checked exhaustively by TLC (uniformity by counting); spec->code replay of TLC-generated entropy tapes; code->spec trace validation in TLC",
+    ),
+    "C20": dict(
+        category="model_checking",
+        text="data/GF2m is GF(2^m) generic in degree and polynomial with Shamir's scheme (Horner shares, the ssss +x^k tweak, Lagrange at zero, duplicate detection); TLC checks the field axioms for all "
+             "elements of GF(2^3), GF(2^4), GF(2^8) (all 16.7M triples in the thorough tier), and on a small field every secret x every coefficient tape x both variants x 2 <= k <= n <= 4: every ordered "
+             "k-subset reconstructs the secret, duplicates are refused, and secrecy by counting (for every k-1 shares the number of consistent (secret, tape) pairs is the same for every secret); a reducible "
+             "polynomial, a variant flip and a broken coefficient source are rejected. At m = 128 (irreducibility of the documented polynomial by Rabin's test as an ASSUME) the same operators judge the real "
+             "_Element operations on boundary and random elements and split/combine with the random source replaced by a logged tape, for every k-subset in every order with n <= 5.",
+        design_ref="DESIGN.md section 6, C20",
+        note="Trusted: TLC; GF2m.tla (pinned by FIPS 197 products, a GHASH vector, ssss vectors). _Element ** 0 (unreachable through split/combine) is left open by name.",
+        technique="TLA+ finite-field and secret-sharing model checked exhaustively by TLC on small fields (incl. secrecy by counting); spec->code replay with coefficient tapes; code->spec trace validation in TLC at m = 128",
+    ),
 }
 
 NOT_APPLICABLE = {
